@@ -131,7 +131,9 @@ namespace options
 
                 if (!env_value.empty())
                 {
-                    update_value(env_value);
+                    // the environment value is the value itself, not a command line token
+                    dirty_ = true;
+                    value_ = env_value;
 
                     return;
                 }
